@@ -32,7 +32,7 @@ def gen_text(rng, paragraphs=None):
 class C13(Property):
     pid = "C13"
     quick_n = 220
-    thorough_n = 6000
+    thorough_n = 1500
     partial = ["C13_width (line-length bound) is decided by the oracle and the differential run; proved: content preservation "
                "for every width and every document, and that the short form is a prefix-by-paragraph of the full form"]
 
